@@ -4,7 +4,9 @@
 Histories over {add_template, add_template_owned (3 Cow combinations), remove_template, clear_templates,
 set_loader (closures whose answers change with a clock), add/remove filter/test/global (custom names and
 built-ins), clone (continue on either copy), switch, render (ok / compile-time failure / run-time failure /
-failing or panicking context), one-off render_named_str} are run against the real engine; after EVERY step
+failing or panicking context), the ad-hoc entry points render_named_str / render_str / template_from_named_str /
+template_from_str / compile_expression(_owned) / undeclared_variables with names that collide with stored or
+loader-served templates, set_trim_blocks / set_keep_trailing_newline} are run against the real engine; after EVERY step
 the harness reports what every name renders in the current and in the other environment.
 
 Verdicts (on the implementation's own output):
@@ -37,14 +39,29 @@ def src_text(x):
     if k == 3: return "{{ %d|%s }}" % (v, REG_NAMES[0][which])
     if k == 4: return "{{ 1 if %d is %s else 0 }}" % (v, REG_NAMES[1][which])
     if k == 5: return "{{ %s(%d)|length }}" % (REG_NAMES[2][which], v)
-    if k == 6: return "{%% for i in [1] %%}{{ %d }}{%% endfor %%}" % p
-    if k == 7: return "{%% if true %%}{{ %d }}{%% endif %%}" % p
+    if k == 6: return "{%% for i in [1] %%}\\n{{ %d }}{%% endfor %%}" % p
+    if k == 7: return "{%% if true %%}{{ %d }}{%% endif %%}\\n" % p
     return "{{ %d }}" % p
+
+
+def expr_text(x):
+    k, p = x % 8, x // 8
+    which, v = p % 2, p // 2
+    if k == 1: return "%d +" % p
+    if k == 2: return "1 // 0"
+    if k == 3: return "%d|%s" % (v, REG_NAMES[0][which])
+    if k == 4: return "1 if %d is %s else 0" % (v, REG_NAMES[1][which])
+    if k == 5: return "%s(%d)|length" % (REG_NAMES[2][which], v)
+    return "%d" % p
+
+
+ADHOC = (14, 16, 17, 18, 19, 20, 21)
 
 
 def describe_step(s):
     op, a, b = s
     n = NAMES[a % 4]
+    an = NAMES[a] if 0 <= a < 4 else "oneoff"
     if op == 0: return 'add_template("%s", "%s")' % (n, src_text(b))
     if op == 1: return 'add_template_owned(String "%s", String "%s")' % (n, src_text(b))
     if op == 2: return 'add_template_owned(&str "%s", String "%s")' % (n, src_text(b))
@@ -61,7 +78,14 @@ def describe_step(s):
     if op == 11: return "clone; continue on the clone"
     if op == 12: return "clone; continue on the original"
     if op == 13: return "switch to the other environment"
-    if op == 14: return 'render_named_str("%s")' % src_text(b)
+    if op == 14: return 'render_named_str("%s", "%s")' % (an, src_text(b))
+    if op == 16: return 'render_str("%s")' % src_text(b)
+    if op == 17: return 'template_from_named_str("%s", "%s").render(ctx)' % (an, src_text(b))
+    if op == 18: return 'template_from_str("%s").render(ctx)' % src_text(b)
+    if op == 19: return 'compile_expression("%s").eval(ctx)' % expr_text(b)
+    if op == 20: return 'compile_expression_owned("%s").eval(ctx)' % expr_text(b)
+    if op == 21: return 'template_from_named_str("%s", "%s").undeclared_variables(true).len()' % (an, src_text(b))
+    if op == 22: return "set_trim_blocks(%s); set_keep_trailing_newline(%s)" % ("true" if a % 4 & 1 else "false", "true" if a % 4 & 2 else "false")
     if op == 15: return 'get_template("%s").render(context whose Serialize %s)' % (n, "panics" if b else "fails")
     return "nop"
 
@@ -96,21 +120,35 @@ def rand_name(rng):
     return rng.choice([0, 0, 0, 1, 1, 2, 3])
 
 
-def rand_step(rng):
+def rand_step(rng, used):
+    """used: sources that occurred earlier in this history (ad-hoc operations like to repeat them)"""
+    def src():
+        x = rng.choice(used) if used and rng.chance(1, 3) else rand_src(rng)
+        used.append(x)
+        return x
     r = rng.below(100)
-    if r < 12: return (0, rand_name(rng), rand_src(rng))
-    if r < 24: return (1 + rng.below(3), rand_name(rng), rand_src(rng))
-    if r < 32: return (4, rand_name(rng), 0)
-    if r < 35: return (5, 0, 0)
-    if r < 43: return (6, rng.below(4), 0)
-    if r < 53: return (7, rng.below(10), 0)
-    if r < 63: return (8, rand_name(rng), 0)
-    if r < 72: return (9, rng.below(6), 1 + rng.below(3))
-    if r < 77: return (10, rng.below(6), 0)
-    if r < 83: return (11 + rng.below(2), 0, 0)
-    if r < 89: return (13, 0, 0)
-    if r < 94: return (14, 0, rand_src(rng))
+    if r < 11: return (0, rand_name(rng), src())
+    if r < 22: return (1 + rng.below(3), rand_name(rng), src())
+    if r < 28: return (4, rand_name(rng), 0)
+    if r < 31: return (5, 0, 0)
+    if r < 38: return (6, rng.below(4), 0)
+    if r < 47: return (7, rng.below(10), 0)
+    if r < 55: return (8, rand_name(rng), 0)
+    if r < 62: return (9, rng.below(6), 1 + rng.below(3))
+    if r < 66: return (10, rng.below(6), 0)
+    if r < 71: return (11 + rng.below(2), 0, 0)
+    if r < 76: return (13, 0, 0)
+    if r < 81: return (22, rng.below(4), 0)
+    if r < 96:
+        # ad-hoc entry points; the name collides with a stored / loader-served template 5 times out of 6
+        op = rng.choice(ADHOC + (14, 14, 17))
+        return (op, rng.below(6) if rng.chance(5, 6) else 9, src())
     return (15, rand_name(rng), rng.below(2))
+
+
+def rand_history(rng, ln):
+    used = []
+    return [rand_step(rng, used) for _ in range(ln)]
 
 
 def gen(chk):
@@ -119,10 +157,11 @@ def gen(chk):
     hist = []
     for _ in range(n_rand):
         ln = 1 + rng.below(40)
-        hist.append([rand_step(rng) for _ in range(ln)])
+        hist.append(rand_history(rng, ln))
     # all histories up to a length over a reduced alphabet (one name, both tiers, failing adds, loader, clone)
     alpha = [(0, 0, 40), (0, 0, 9), (1, 0, 48), (1, 0, 17), (4, 0, 0), (5, 0, 0), (6, 1, 0), (7, 1, 0),
-             (8, 0, 0), (11, 0, 0), (13, 0, 0), (9, 1, 2), (0, 0, 8 * 3 + 3)]
+             (8, 0, 0), (11, 0, 0), (13, 0, 0), (9, 1, 2), (0, 0, 8 * 3 + 3),
+             (14, 0, 8 * 5 + 6), (17, 0, 40), (0, 0, 8 * 5 + 6), (22, 1, 0)]
     maxlen = 4 if chk.thorough else 3
     ex = [[]]
     exhaustive = []
@@ -134,26 +173,32 @@ def gen(chk):
 
 # ---------------------------------------------------------------------------------------------
 # the fresh environment a step's predicted contents describe
+ENV_W = 17       # integers per environment in a contents line: src[4] cfg[4] loader now regs[6] cfg
+INITIAL = (-1, -1, -1, -1, -1, -1, -1, -1, -1, 0, -1, 0, -1, 0, -1, 0, 0)
+
+
 def parse_contents(line, nsteps):
-    """-> per step [(tpl[4], loader, now, regs[6]) for cur, same or None for other]"""
+    """-> per step [(src[4], cfg[4], loader, now, regs[6], cfg) for cur, same or None for other]"""
     out = []
     i = 0
     for _ in range(nsteps):
         i += 2
         envs = []
-        cur = line[i:i + 12]; i += 12
+        cur = line[i:i + ENV_W]; i += ENV_W
         envs.append(tuple(cur))
         present = line[i]; i += 1
         if present == 1:
-            envs.append(tuple(line[i:i + 12])); i += 12
+            envs.append(tuple(line[i:i + ENV_W])); i += ENV_W
         else:
             envs.append(None)
         out.append(envs)
     return out
 
 
-def fresh_history(cont):
-    tpl, loader, now, regs = cont[0:4], cont[4], cont[5], cont[6:12]
+def fresh_history(cont, then=None):
+    """Builds the environment the contents describe (each template is added under the configuration it
+    is held with; the current configuration is set last), optionally followed by one more step."""
+    tpl, tcfg, loader, now, regs, cfg = cont[0:4], cont[4:8], cont[8], cont[9], cont[10:16], cont[16]
     steps = [(7, now, 0)]
     if loader >= 0:
         steps.append((6, loader, 0))
@@ -162,9 +207,16 @@ def fresh_history(cont):
         if regs[r] == initial:
             continue
         steps.append((10, r, 0) if regs[r] < 0 else (9, r, regs[r]))
+    cur = 0
     for n in range(4):
         if tpl[n] >= 0:
+            if tcfg[n] != cur:
+                steps.append((22, tcfg[n], 0)); cur = tcfg[n]
             steps.append(((tpl[n] + n) % 4, n, tpl[n]))      # any of the four add flavours
+    if cfg != cur:
+        steps.append((22, cfg, 0))
+    if then is not None:
+        steps.append(tuple(then))
     return tuple(steps)
 
 
@@ -183,13 +235,16 @@ def evaluate(hists, profiles=(False, True), want_model=True, chunk_main=None, ch
     # oracle B: fresh environments
     parsed = [parse_contents(cont[i], len(hists[i])) for i in range(len(hists))]
     fresh = collections.OrderedDict()
-    for p in parsed:
-        for envs in p:
+    for i, p in enumerate(parsed):
+        for k, envs in enumerate(p):
             for e in envs:
-                if e is not None and e not in fresh:
-                    fresh[e] = None
+                if e is not None:
+                    fresh[(e, None)] = None
+            if hists[i][k][0] in ADHOC:
+                # oracle (b): the ad-hoc operation on a fresh environment holding the contents before it
+                fresh[(p[k - 1][0] if k else INITIAL, tuple(hists[i][k]))] = None
     keys = list(fresh)
-    fout = {rel: run_impl("c15", [case_of(fresh_history(k), mode=1) for k in keys], release=rel, chunk=chunk_fresh) for rel in profiles}
+    fout = {rel: run_impl("c15", [case_of(fresh_history(e, st), mode=1) for e, st in keys], release=rel, chunk=chunk_fresh) for rel in profiles}
     fresh_obs = {rel: dict(zip(keys, fout[rel])) for rel in profiles}
     res["fresh_configs"] = len(keys)
     res["contents"] = parsed
@@ -211,12 +266,21 @@ def evaluate(hists, profiles=(False, True), want_model=True, chunk_main=None, ch
             for k in range(len(h)):
                 cur = out[k * STEP_W + 2:k * STEP_W + 10]
                 oth = out[k * STEP_W + 11:k * STEP_W + 19]
+                if h[k][0] in ADHOC:
+                    before = parsed[i][k - 1][0] if k else INITIAL
+                    want = fresh_obs[rel][(before, tuple(h[k]))][0:2]
+                    if out[k * STEP_W:k * STEP_W + 2] != want:
+                        f = {"oracle": "B", "profile": prof, "step": k, "step_text": describe_step(h[k]),
+                             "implementation": out[k * STEP_W:k * STEP_W + 2], "fresh_environment_gives": want,
+                             "fresh_environment_built_by": [describe_step(s) for s in fresh_history(before)],
+                             "what": "the ad-hoc operation's own result differs from what a freshly built environment with the same contents and configuration gives for that source"}
+                        break
                 for which, obs, e in (("current", cur, parsed[i][k][0]), ("other", oth, parsed[i][k][1])):
                     if e is None:
                         continue
-                    if fresh_obs[rel][e] != obs:
+                    if fresh_obs[rel][(e, None)][2:10] != obs:
                         f = {"oracle": "B", "profile": prof, "step": k, "step_text": describe_step(h[k]), "environment": which,
-                             "implementation": obs, "fresh_environment_renders": fresh_obs[rel][e],
+                             "implementation": obs, "fresh_environment_renders": fresh_obs[rel][(e, None)][2:10],
                              "fresh_environment_built_by": [describe_step(s) for s in fresh_history(e)],
                              "what": "after this step the environment renders differently from a freshly built environment with the same contents"}
                         break
@@ -356,7 +420,21 @@ def main():
             cont = r["contents"][i][k][0]
             if s[0] in (8, 15) and k > 0 and cont[s[1] % 4] >= 0 and r["contents"][i][k - 1][0][s[1] % 4] < 0:
                 events["renders that obtained a source from the loader and pinned it"] += 1
-            if s[0] == 7 and cont[4] >= 0 and k > 0 and r["contents"][i][k - 1][0][5] != s[1] and any(x >= 0 for x in cont[0:4]):
+            if s[0] in ADHOC:
+                events["ad-hoc operations (render_named_str, render_str, template_from_*, compile_expression*, undeclared_variables)"] += 1
+                before = r["contents"][i][k - 1][0] if k else INITIAL
+                if 0 <= s[1] < 4 and s[0] in (14, 17, 21):
+                    if before[s[1]] >= 0:
+                        events["ad-hoc operations named like a stored template"] += 1
+                        if before[s[1]] == s[2]:
+                            events["... with the very same source"] += 1
+                            if before[4 + s[1]] != before[16]:
+                                events["... stored under a configuration that has changed since"] += 1
+                    elif before[8] >= 0:
+                        events["ad-hoc operations named like a template only the loader could serve"] += 1
+            if s[0] == 22 and k > 0 and r["contents"][i][k - 1][0][16] != s[1] % 4 and any(x >= 0 for x in cont[0:4]):
+                events["configuration changes while templates are held"] += 1
+            if s[0] == 7 and cont[8] >= 0 and k > 0 and r["contents"][i][k - 1][0][9] != s[1] and any(x >= 0 for x in cont[0:4]):
                 events["clock changes while a loader is set and templates are held"] += 1
         if held:
             events["histories with a failing add onto a name that currently renders"] += 1
